@@ -100,17 +100,17 @@ UNIT = {
                            'invariant': [
                              ('all_parts', 'parts@ == parts_all && self.position == end0 && lx_wf(self.position, self.input@)'),
                              ('not_introduced', "!next_is(self.input@, end0 as int, seq![':'])"),
-                             ('no_tweak_applies', 'parts_all[0]@ != "item"@ && !(old(self).till_in && exists |i: int| first_in(parts_all, i))'),
-                             ('frame', 'self.input == old(self).input && self.scope == old(self).scope && self.till_in == old(self).till_in && !self.type_name && type_name_expected == old(self).type_name'),
+                             ('no_tweak_applies', 'parts_all[0]@ != "item"@ && !old(self).till_in'),
+                             ('frame', 'self.input == old(self).input && self.scope == old(self).scope && !self.till_in && !self.type_name && type_name_expected == old(self).type_name'),
                              ('keys', 'forall |k: String| #[trigger] flattened_keys@.contains(k) <==> scope_keys(*self.scope).contains(k@)'),
                              ('scan', 'name_scan(self.input@, old(self).position as int, parts@, consumed_positions@, self.position as int)'),
                              ('longer_prefixes_unbound', 'part_count <= parts@.len() && forall |k2: int| part_count < k2 <= parts@.len() ==> !scope_keys(*self.scope).contains(#[trigger] flat(parts@.subrange(0, k2)))')]},
                        2: {'invariant': [
-                             ('frame', 'self.input == old(self).input && self.scope == old(self).scope && self.till_in == old(self).till_in && !self.type_name && type_name_expected && old(self).type_name'),
+                             ('frame', 'self.input == old(self).input && self.scope == old(self).scope && !self.till_in && !self.type_name && type_name_expected && old(self).type_name'),
                              ('all_parts', 'parts@ == parts_all && self.position == end0 && lx_wf(self.position, self.input@)'),
                              ('not_introduced', "!next_is(self.input@, end0 as int, seq![':'])"),
                              ('scan', 'name_scan(self.input@, old(self).position as int, parts@, consumed_positions@, self.position as int)'),
-                             ('no_tweak_applies', 'parts_all[0]@ != "item"@ && !(old(self).till_in && exists |i: int| first_in(parts_all, i)) && no_match(parts_all, scope_keys(*old(self).scope)) && name == name_of_parts(parts_all)'),
+                             ('no_tweak_applies', 'parts_all[0]@ != "item"@ && !old(self).till_in && no_match(parts_all, scope_keys(*old(self).scope)) && name == name_of_parts(parts_all)'),
                              ('longer_prefixes_are_not_type_names', 'part_count <= parts@.len() && forall |k2: int| part_count < k2 <= parts@.len() ==> !is_type_name(name_of_parts(#[trigger] parts@.subrange(0, k2)))')]}},
            rewrites=[('RX', 'R14', r'let mut parts = vec!\[\];', 'let mut parts: Vec<String> = vec![];', 1),
                      ('RX', 'R14', r'let mut consumed_positions = vec!\[\];', 'let mut consumed_positions: Vec<usize> = vec![];', 1),
